@@ -323,15 +323,68 @@ def _worker(job):
                                        "list_before": got, "list_after": g4, "callback_after": g5}
             if reads != len(v) + 1 and "C08" not in viol:
                 viol["C08"] = {"cfg": cfg, "verdicts": v, "what": "source read %d times for %d frames (end of stream must be requested exactly once)" % (reads, len(v))}
-            for name, fn in (("C01", chk_C01), ("C02", chk_C02), ("C03", chk_C03)):
-                if name not in viol:
-                    w = fn(cfg, v, got)
+            routes = [("", got)]
+            if k % 7 == 3 and v:
+                # the same call made in two less direct ways; the statements hold for every token "the tokenizer delivers"
+                import copy as _copy
+                other = streams[(k + 5) % len(streams)]
+                vals = {"cur": v}
+                tkp = StreamTokenizerProxy(cfg, vals)
+                gen = tkp.tokenize(ListSource(len(v)), generator=True)     # requested now ...
+                vals["cur"] = other
+                tkp.tokenize(ListSource(len(other)))                      # ... another complete run in between ...
+                vals["cur"] = v
+                routes.append((" [generator requested before, and consumed after, another complete run on the same tokenizer (stream %r)]" % (other,),
+                               [[s_, e_, list(d_)] for (d_, s_, e_) in gen]))   # ... consumed afterwards
+                # tokens a caller holds stay what they were: later runs on the tokenizer and on copies of it do not touch them
+                proto = StreamTokenizerProxy(cfg, vals)
+                ca, cb_ = _copy.copy(proto), _copy.copy(proto)
+                held = ca.tokenize(ListSource(len(v)))
+                snap = [[s_, e_, list(d_)] for (d_, s_, e_) in held]
+                vals["cur"] = other
+                cb_.tokenize(ListSource(len(other)))
+                proto.tokenize(ListSource(len(other)))
+                ca.tokenize(ListSource(len(other)))
+                vals["cur"] = v
+                routes.append((" [tokens held by the caller, looked at again after later runs on the same tokenizer and on copy.copy() siblings (stream %r)]" % (other,),
+                               [[s_, e_, list(d_)] for (d_, s_, e_) in held]))
+                stats["evals"] += 2
+                # frames of other types: valid frames are (index, True) pairs, invalid ones a zoo of falsy / zero-length objects
+                # (a frame is whatever the source returns; only None ends the stream)
+                from auditok.core import StreamTokenizer as _ST
+                zoo = ((), "", b"", [], 0, False, 0.0, bytearray(), frozenset(), (k, False))
+                frames = [(i, True) if v[i] else zoo[(i + k) % len(zoo)] for i in range(len(v))]
+
+                class ObjSource:
+                    def __init__(self_):
+                        self_.i = 0
+
+                    def read(self_):
+                        if self_.i >= len(frames):
+                            return None
+                        self_.i += 1
+                        return frames[self_.i - 1]
+                mn_, mx_, ms_, imin_, ims_, mode_ = cfg
+                tko = _ST(lambda f: isinstance(f, tuple) and len(f) == 2 and f[1] is True, mn_, mx_, ms_, init_min=imin_, init_max_silence=ims_, mode=mode_)
+                objs = tko.tokenize(ObjSource())
+                as_idx = [[s_, e_, list(range(s_, e_ + 1)) if (len(d_) == e_ - s_ + 1 and 0 <= s_ <= e_ < len(frames) and all(a is b for a, b in zip(d_, frames[s_:e_ + 1]))) else ["frames differ from those at %d..%d" % (s_, e_)]]
+                          for (d_, s_, e_) in objs]
+                routes.append((" [frames of other types: valid = (index, True), invalid = falsy or zero-length objects %r]" % ([frames[i] for i in range(len(v)) if not v[i]][:6],), as_idx))
+                stats["evals"] += 1
+            for route, toks_ in routes:
+                for name, fn in (("C01", chk_C01), ("C02", chk_C02), ("C03", chk_C03)):
+                    if name not in viol:
+                        w = fn(cfg, v, toks_)
+                        if w:
+                            viol[name] = {"cfg": cfg, "verdicts": v, "what": w + route, "impl_tokens": toks_}
+                if "C04" not in viol:
+                    w = chk_C04(cfg, v, toks_, model["seg"][k])
                     if w:
-                        viol[name] = {"cfg": cfg, "verdicts": v, "what": w, "impl_tokens": got}
-            if "C04" not in viol:
-                w = chk_C04(cfg, v, got, model["seg"][k])
-                if w:
-                    viol["C04"] = {"cfg": cfg, "verdicts": v, "what": w, "impl_tokens": got}
+                        viol["C04"] = {"cfg": cfg, "verdicts": v, "what": w + route, "impl_tokens": toks_}
+                if route and toks_ != got:
+                    for name in ("C08", "C20"):
+                        if name not in viol:
+                            viol[name] = {"cfg": cfg, "verdicts": v, "what": "tokens differ from those of a plain run on a fresh tokenizer" + route, "impl_tokens": toks_, "plain": got}
             if got:
                 stats["tokens"] += len(got)
                 stats["nontrivial"].add((cfg, tuple(v)))
@@ -361,9 +414,51 @@ def _worker(job):
             # v is a pair (first stream, second stream); earlier use: complete / partial / abandoned generator
             v1, v2 = v
             fresh, _ = impl_tokens(impl_make(cfg, ref), ref, v2, "list")
-            for how in ("complete", "partial", "abandoned", "callback", "deferred", "source error", "callback error"):
+
+            def judge(got, how):
+                # C01-C04 speak of every token the tokenizer delivers, whatever the object did before
+                if got == fresh:
+                    return
+                route = " [tokenizer used before: %s, on stream %r]" % (how, v1)
+                for name, fn in (("C01", chk_C01), ("C02", chk_C02), ("C03", chk_C03)):
+                    if name not in viol:
+                        w = fn(cfg, v2, got)
+                        if w:
+                            viol[name] = {"cfg": cfg, "verdicts": v2, "what": w + route, "impl_tokens": got}
+                if "C04" not in viol and cfg[3] <= 1 and got != model["reuse"][k]:
+                    viol["C04"] = {"cfg": cfg, "verdicts": v2, "what": "tokens %r differ from the greedy segmentation %r" % (
+                        [t[:2] for t in got], [t[:2] for t in model["reuse"][k]]) + route, "impl_tokens": got}
+            for how in ("complete", "partial", "abandoned", "callback", "deferred", "source error", "callback error", "closed later"):
                 tk2 = impl_make(cfg, ref)
                 ref[0] = v1
+                if how == "closed later":
+                    # an abandoned, half-consumed generator stays alive and is closed (as the garbage collector may do at any
+                    # moment) while the next run is in the middle of its stream
+                    vals = {"cur": v1}
+                    tkc = StreamTokenizerProxy(cfg, vals)
+                    src1 = ListSource(len(v1))
+                    g = tkc.tokenize(src1, generator=True)
+                    try:
+                        while src1.i < (len(v1) + 1) // 2:
+                            next(g)
+                    except StopIteration:
+                        pass
+                    at = (k * 7 + len(v1)) % (len(v2) + 1)
+
+                    class Closing(ListSource):
+                        def read(self_):
+                            if self_.i == at:
+                                g.close()
+                            return ListSource.read(self_)
+                    vals["cur"] = v2
+                    got = [[s, e, list(d)] for (d, s, e) in tkc.tokenize(Closing(len(v2)))]
+                    stats["evals"] += 1
+                    hw = "a generator abandoned half-way and closed (garbage-collected) while the next run reads frame %d" % at
+                    if got != fresh and "C20" not in viol:
+                        viol["C20"] = {"cfg": cfg, "first_stream": v1, "second_stream": v2, "earlier_use": hw,
+                                       "what": "reused tokenizer differs from a fresh one", "reused": got, "fresh": fresh}
+                    judge(got, hw)
+                    continue
                 if how == "deferred":
                     # both generators are created before either is consumed, then consumed one after the other
                     class VSrc(ListSource):
@@ -430,6 +525,7 @@ def _worker(job):
                 if got != fresh and "C20" not in viol:
                     viol["C20"] = {"cfg": cfg, "first_stream": v1, "second_stream": v2, "earlier_use": how,
                                    "what": "reused tokenizer differs from a fresh one", "reused": got, "fresh": fresh}
+                judge(got, how)
                 if got != model["reuse"][k] and len(mism) < 5:
                     mism.append({"cfg": cfg, "first": v1, "second": v2, "earlier_use": how, "impl": got, "model": model["reuse"][k]})
             if fresh:
@@ -734,6 +830,12 @@ def run(prop, tier):
             samples.append({"config(min,max,max_sil,init_min,init_max_sil,mode)": list(cfgs[len(cfgs) // 2]), "verdicts": streams[-3],
                             "model_tokens": raw[len(cfgs) // 2][1][-3] if raw[len(cfgs) // 2][0] == 0 else raw[len(cfgs) // 2]})
             samples.append({"config": list(rc[0]), "verdicts_len": len(rs[0]), "model_tokens_first3": raw2[0][1][0][:3]})
+            # the same statements for a tokenizer that was used before (complete, partial, abandoned, failed, deferred ... earlier runs)
+            base = streams_upto(4)
+            t, m, v, _, _ = correspondence("reuse", cfgs[::3] if quick else cfgs, [(a, b) for a in base for b in base], pool)
+            tot_ev += t["evals"]; mismatches += m
+            for k, x in v.items():
+                violations.setdefault(k, x)
         if prop == "C02":
             g = accept_grid(-1, 4, -1, 7) if quick else accept_grid(-2, 6, -1, 8)
             want = C.model_eval([(6, g)])[0]
